@@ -102,10 +102,14 @@ def run(prop, tier, only=None):
             c = cases[key]
             out.sample({"tool": c["k"], "doc": s(c["text"]), "xpath": s(c["expr"]), "value": s(c.get("frag", [])),
                         "usable": c.get("usable"), "expected": s(c["expect"]) if c["k"] == "xe" else c["value"]})
-        out.rule = ("every (document, expression, fragment) triple of spec/CliPool.tla (4 documents incl. merged "
-                    "text runs and DOCTYPE, 19 expressions incl. nested / empty / scalar / erroneous selections, 12 "
-                    "replacement fragments incl. ill-formed and unsupported ones) run through the real xq and xe "
-                    "binaries, compact and indented; a run is non-trivial if it selects something or must be refused")
+        nd = len({e["di"] for e in events})
+        ne = len({e["ei"] for e in events})
+        nf = len({e["fi"] for e in events if e["event"] == "xe"})
+        out.rule = ("every (document, expression, fragment) triple of spec/CliPool.tla in this tier (%d documents incl. "
+                    "merged text runs, DOCTYPE, prefixes and default namespaces, %d expressions incl. nested / empty / "
+                    "scalar / erroneous selections and long flat chains, %d replacement fragments incl. ill-formed, "
+                    "prefixed and unsupported ones) run through the real xq and xe binaries, compact and indented; a run "
+                    "is non-trivial if it selects something or must be refused" % (nd, ne, nf))
         out.assumptions = [
             "the expected document is given as text by the specification and compared after parsing both it and "
             "xe's compact output with the library (merged view): a parser defect common to both sides is C01's business",
